@@ -76,7 +76,8 @@ Inductive algo :=
 | ASelectActive
 | AClosePositionsAfterDates (key : nat)
 | ARollPositionsAfterDates (key : nat)
-| AReplayTransactions (key : nat).
+| AReplayTransactions (key : nat)
+| AMock (id : nat) (results : list bool).    (* test double: logs its call, returns scripted results (True when exhausted) *)
 
 Record temp := mkTemp {
   t_selected : option (list nat);
@@ -96,19 +97,23 @@ Record astate := mkAState {
   a_rolled : list nat;              (* perm['rolled'] *)
   a_has_closed : bool;              (* "closed" in perm *)
   a_has_rolled : bool;
+  a_log : list nat;                 (* ghost: ids of mock algos in invocation order *)
   a_trace : list (option nat * bool * temp)   (* ghost: (now, stack result, temp) at the end of every Strategy.run *)
 }.
 Definition set_a_temp (tm : temp) (a : astate) : astate :=
-  mkAState (a_is_strategy a) (a_stack a) tm (a_closed a) (a_rolled a) (a_has_closed a) (a_has_rolled a) (a_trace a).
+  mkAState (a_is_strategy a) (a_stack a) tm (a_closed a) (a_rolled a) (a_has_closed a) (a_has_rolled a) (a_log a) (a_trace a).
 Definition set_a_stack (l : list algo) (a : astate) : astate :=
-  mkAState (a_is_strategy a) l (a_temp a) (a_closed a) (a_rolled a) (a_has_closed a) (a_has_rolled a) (a_trace a).
+  mkAState (a_is_strategy a) l (a_temp a) (a_closed a) (a_rolled a) (a_has_closed a) (a_has_rolled a) (a_log a) (a_trace a).
 Definition add_a_closed (l : list nat) (a : astate) : astate :=
-  mkAState (a_is_strategy a) (a_stack a) (a_temp a) (a_closed a ++ l) (a_rolled a) true (a_has_rolled a) (a_trace a).
+  mkAState (a_is_strategy a) (a_stack a) (a_temp a) (a_closed a ++ l) (a_rolled a) true (a_has_rolled a) (a_log a) (a_trace a).
 Definition add_a_rolled (l : list nat) (a : astate) : astate :=
-  mkAState (a_is_strategy a) (a_stack a) (a_temp a) (a_closed a) (a_rolled a ++ l) (a_has_closed a) true (a_trace a).
+  mkAState (a_is_strategy a) (a_stack a) (a_temp a) (a_closed a) (a_rolled a ++ l) (a_has_closed a) true (a_log a) (a_trace a).
 Definition add_a_trace (x : option nat * bool * temp) (a : astate) : astate :=
   mkAState (a_is_strategy a) (a_stack a) (a_temp a) (a_closed a) (a_rolled a) (a_has_closed a) (a_has_rolled a)
-           (a_trace a ++ [x]).
+           (a_log a) (a_trace a ++ [x]).
+Definition add_a_log (x : nat) (a : astate) : astate :=
+  mkAState (a_is_strategy a) (a_stack a) (a_temp a) (a_closed a) (a_rolled a) (a_has_closed a) (a_has_rolled a)
+           (a_log a ++ [x]) (a_trace a).
 
 Local Notation node := (node N astate).
 Local Notation tree := (tree N astate).
@@ -264,7 +269,8 @@ Fixpoint limit_weights (fuel : nat) (lim : t) (w : list (nat * t)) : result (lis
 Definition compare_dates (k : pkind) (now other : Z) : bool :=
   match k with
   | PDaily => negb (Z.eqb (day_of now) (day_of other))
-  | PWeekly => negb (Z.eqb (year_of now) (year_of other)) || negb (Z.eqb (week_of now) (week_of other))
+  | PWeekly => negb (Z.eqb (iso_year_of_days (day_of now)) (iso_year_of_days (day_of other)))
+               || negb (Z.eqb (week_of now) (week_of other))
   | PMonthly => negb (Z.eqb (year_of now) (year_of other)) || negb (Z.eqb (month_of now) (month_of other))
   | PQuarterly => negb (Z.eqb (year_of now) (year_of other)) || negb (Z.eqb (quarter_of now) (quarter_of other))
   | PYearly => negb (Z.eqb (year_of now) (year_of other))
@@ -857,6 +863,12 @@ Fixpoint run_algo (a : algo) (tr : tree) {struct a} : result (algo * bool * tree
       same true tr
     | _ => Err EKey
     end
+  | AMock id rs =>
+    tr <- upd_astate p (add_a_log id) tr ;;
+    match rs with
+    | [] => Ok (AMock id [], true, tr)
+    | b :: rs' => Ok (AMock id rs', b, tr)
+    end
   end.
 End RunAlgo.
 
@@ -885,6 +897,32 @@ Fixpoint strat_run (fuel : nat) (e : env) (p : list nat) (tr : tree) {struct fue
     go kids tr
   end.
 
+
+(* ---- small drivers for the scheduler / stack correspondence suites ---- *)
+Definition dummy_root (nrows : nat) (stack : list algo) (now : option nat) : tree :=
+  (NStrat (set_g_now now
+            (init_strat 0 false false false false (fun _ _ => 0) [] (mkKw None None None None) nrows []
+                        (mkAState true stack empty_temp [] [] false false [] [])))
+          [] [] None, false).
+
+(* call one algo repeatedly with target.now taking the given rows (stops at the first error) *)
+Definition sched_run (dates : list Z) (a : algo) (calls : list (option nat)) : list (result bool) :=
+  snd (fold_left
+         (fun (st : option algo * list (result bool)) (c : option nat) =>
+            match fst st with
+            | None => st
+            | Some a =>
+              match run_algo (mkEnv dates []) [] a (dummy_root (length dates) [] c) with
+              | Ok (a', b, _) => (Some a', snd st ++ [Ok b])
+              | Err er => (None, snd st ++ [Err er])
+              end
+            end) calls (Some a, [])).
+
+(* Strategy.run with the given stack, [n] times: (log of mock invocations, result of every run) *)
+Definition stack_runs (n : nat) (tr : tree) : result (list nat * list bool) :=
+  tr <- Nat.iter n (fun r => tr <- r ;; strat_run 3 (mkEnv [] []) [] tr) (Ok tr) ;;
+  '(_, _, a) <- get_astate [] tr ;;
+  Ok (a_log a, map (fun x => snd (fst x)) (a_trace a)).
 End Algos.
 
 (* ------------------------------------------------------------------ *)
